@@ -146,7 +146,10 @@ fn work(case: Val) -> Val {
     // the sink takes everything it is offered, or at most 1 / 5 / 64 bytes per write call.
     static TURN: std::sync::atomic::AtomicUsize = std::sync::atomic::AtomicUsize::new(0);
     let turn = TURN.fetch_add(1, std::sync::atomic::Ordering::SeqCst);
-    let mut w = VecWriter(Vec::new(), [0, 1, 0, 5, 0, 64, 1, 0, 5, 0, 64, 0][turn % 12]);
+    // ... and the sink is empty, or already holds what earlier records left there (a whole line, or a torn
+    // one): the encoder only ever appends, so that content must come out untouched in front of the record.
+    let earlier: &[u8] = [&b""[..], b"{\"earlier\":\"line\"}\n", b"", b"{\"torn\":\"li", b"\n\n"][turn % 5];
+    let mut w = VecWriter(earlier.to_vec(), [0, 1, 0, 5, 0, 64, 1, 0, 5, 0, 64, 0][turn % 12]);
     let enc: Box<dyn Encode> = if turn % 2 == 1 {
         let cfg = serde_json::from_value(serde_json::json!({})).expect("empty encoder configuration");
         log4rs::config::Deserializers::default().deserialize("json", cfg).expect("kind json")
@@ -185,6 +188,9 @@ fn work(case: Val) -> Val {
     if late {
         // the iteration order of the map the message filled (read after the encode: the map is this thread's)
         log_mdc::iter(|k, _| order.push(Val::S(k.as_bytes().to_vec())));
+    }
+    if w.0.starts_with(earlier) {
+        w.0.drain(..earlier.len());
     }
     // A sink that refuses ONE write call: when encode nevertheless returns Ok, what it wrote must still be
     // the one complete line (records with MDC entries and a short message only: ~100 write calls).
